@@ -191,6 +191,21 @@ pub struct Report {
     assumptions: Mutex<Vec<String>>,
     known: Vec<KnownFinding>,
     inner: Mutex<Inner>,
+    /// replay by re-enumeration: only a violation of exactly this (normalised) case is reported
+    replay_case: Mutex<Option<String>>,
+}
+
+/// A case description with run-specific parts removed: the free-form "detail" member, uuids and
+/// 64-hex artifact ids.
+pub fn normalise_case(case: &Value) -> String {
+    let mut c = case.clone();
+    if let Some(o) = c.as_object_mut() {
+        o.remove("detail");
+    }
+    let text = c.to_string();
+    static RE: std::sync::OnceLock<regex::Regex> = std::sync::OnceLock::new();
+    let re = RE.get_or_init(|| regex::Regex::new(r"[0-9a-f]{8}-[0-9a-f]{4}-[0-9a-f]{4}-[0-9a-f]{4}-[0-9a-f]{12}|[0-9a-f]{64}|/dev/shm/rip-verif/[A-Za-z0-9_]+").unwrap());
+    re.replace_all(&text, "#").to_string()
 }
 
 impl Report {
@@ -208,6 +223,7 @@ impl Report {
             rule: Mutex::new(String::new()),
             assumptions: Mutex::new(Vec::new()),
             known,
+            replay_case: Mutex::new(None),
             inner: Mutex::new(Inner {
                 evaluations: 0,
                 distinct: HashSet::new(),
@@ -329,7 +345,20 @@ impl Report {
 
     /// Report a violation. `signature` is a stable, narrow classification of *what* failed (used
     /// to match known findings); `case` is the replayable description.
+    /// Replay for checks without a dedicated single-case entry: the enumeration runs as usual
+    /// and only the saved case is judged (every other violation is ignored).
+    pub fn replay_by_re_enumeration(&self, path: &Path) {
+        let case = load_replay_case(path);
+        println!("replay: re-running the enumeration, judging only the saved case {}", compact(&case, 300));
+        *self.replay_case.lock().unwrap() = Some(normalise_case(&case));
+    }
+
     pub fn violation(&self, signature: &str, case: Value, message: &str) {
+        if let Some(want) = self.replay_case.lock().unwrap().as_ref() {
+            if normalise_case(&case) != *want {
+                return;
+            }
+        }
         if self.worker {
             let mut inner = self.inner.lock().unwrap();
             inner.violations += 1;
